@@ -2,6 +2,7 @@
 // Injected into a scratch copy of /repo under cfg(kani) only.
 use super::*;
 use crate::ff::{Field, PrimeField};
+use crate::ff::derive::subtle;
 
 /// p = 2^128 + 12451 as little-endian 64-bit limbs
 const P: [u64; 3] = [12451, 0, 1];
@@ -245,7 +246,7 @@ fn k_recover_selection() {
 /// Vec<u8>::from(&Share) = x.to_repr() ++ y[0].to_repr() ++ ... (structure only; to_repr itself is
 /// T-field), for y of length 0..1
 #[kani::proof]
-#[kani::unwind(4)]
+#[kani::unwind(26)]
 #[kani::stub(<Fp as crate::ff::PrimeField>::to_repr, stub_to_repr)]
 fn k_vec_from_share() {
   let has_y: bool = kani::any();
@@ -264,6 +265,9 @@ fn k_vec_from_share() {
 // Bounded TWINS of functions Verus proves unboundedly: they decide a function whose changed text is
 // no longer within Verus' reach, and provide concrete counterexamples for Verus failures.
 
+/// limb-wise equality (array `==` goes through memcmp, whose loop needs a large unwinding bound)
+fn eq3(a: &[u64; 3], b: &[u64; 3]) -> bool { a[0] == b[0] && a[1] == b[1] && a[2] == b[2] }
+
 fn limbs_of(b: &[u8]) -> [u64; 3] {
   let mut l = [0u64; 3];
   let mut w = [0u8; 8];
@@ -276,37 +280,51 @@ fn limbs_of(b: &[u8]) -> [u64; 3] {
   l
 }
 
+/// cheap stand-in for Fp::from_repr in the decoder twins: accept iff the limbs are below p (that the
+/// REAL from_repr accepts exactly this range is proved by k_fp_from_repr_range) and return the limbs
+/// unconverted - comparing two independently computed Montgomery products is a multiplier-equivalence
+/// problem SAT does not finish.  The twins therefore check the decoders' control flow, slicing and
+/// element order, with the field conversion abstracted (T-field).
+fn stub_from_repr(r: FpRepr) -> subtle::CtOption<Fp> {
+  let l = limbs_of(&r.0);
+  subtle::CtOption::new(Fp(l), subtle::Choice::from(lt(&l, &P) as u8))
+}
+
 /// Share::try_from against the layout (24-byte LE elements, canonical range, trailing partial element
-/// ignored) for every byte string of length <= 50 (x, at most one y, partial tail)
-#[kani::proof]
-#[kani::unwind(4)]
-fn k_share_try_from() {
-  let buf: [u8; 50] = kani::any();
-  let n: usize = kani::any();
-  kani::assume(n <= 50);
-  let s = &buf[..n];
+/// ignored) for EVERY byte string of the given concrete length (symbolic lengths blow up CBMC)
+fn check_try_from<const N: usize>() {
+  let buf: [u8; N] = kani::any();
+  let s = &buf[..];
   let r = Share::try_from(s);
-  if n < 24 {
+  if N < 24 {
     assert!(r.is_err());
     return;
   }
   let x_ok = lt(&limbs_of(&s[0..24]), &P);
-  let has_y = n >= 48;
+  let has_y = N >= 48;
   let y_ok = !has_y || lt(&limbs_of(&s[24..48]), &P);
   assert!(r.is_ok() == (x_ok && y_ok));
   if let Ok(sh) = r {
-    let mut xb = [0u8; 24];
-    xb.copy_from_slice(&s[0..24]);
-    let xr: Option<Fp> = Fp::from_repr(FpRepr(xb)).into();
-    assert!(sh.x.0 == xr.unwrap().0);
+    assert!(eq3(&sh.x.0, &limbs_of(&s[0..24])));
     assert!(sh.y.len() == if has_y { 1 } else { 0 });
     if has_y {
-      let mut yb = [0u8; 24];
-      yb.copy_from_slice(&s[24..48]);
-      let yr: Option<Fp> = Fp::from_repr(FpRepr(yb)).into();
-      assert!(sh.y[0].0 == yr.unwrap().0);
+      assert!(eq3(&sh.y[0].0, &limbs_of(&s[24..48])));
     }
   }
+}
+#[kani::proof]
+#[kani::unwind(4)]
+#[kani::stub(<Fp as crate::ff::PrimeField>::from_repr, stub_from_repr)]
+fn k_share_try_from() {
+  check_try_from::<23>();
+  check_try_from::<24>();
+  check_try_from::<47>();
+}
+#[kani::proof]
+#[kani::unwind(4)]
+#[kani::stub(<Fp as crate::ff::PrimeField>::from_repr, stub_from_repr)]
+fn k_share_try_from_y() {
+  check_try_from::<48>();
 }
 
 /// deterministic RNG: the d-th (0-based) Fp::random draw consumes three next_u64 calls and yields the
@@ -324,62 +342,73 @@ impl rand::RngCore for SeqRng {
   fn try_fill_bytes(&mut self, dest: &mut [u8]) -> Result<(), rand::Error> { let _ = dest; Ok(()) }
 }
 
-/// random_polynomial: k coefficients (at least one), last = s, coefficient j is the j-th draw, in order
-#[kani::proof]
-#[kani::unwind(6)]
-fn k_random_polynomial() {
-  let k: u32 = kani::any();
-  kani::assume(k <= 4);
+/// random_polynomial: k coefficients (at least one), last = s, coefficient j is the j-th draw, in order;
+/// k = 0..4 (concrete k: a symbolic Vec capacity blows up CBMC's memory model), symbolic s
+fn check_random_polynomial(k: u32) {
   let s = any_fp();
   let mut rng = SeqRng { calls: 0 };
   let p = random_polynomial(s, k, &mut rng);
   let n = if k >= 1 { k as usize } else { 1 };
   assert!(p.len() == n);
-  assert!(p[n - 1].0 == s.0);
+  assert!(eq3(&p[n - 1].0, &s.0));
   let mut j = 0;
   while j + 1 < n {
-    assert!(p[j].0 == [101 + j as u64, 0, 0]);
+    assert!(eq3(&p[j].0, &[101 + j as u64, 0, 0]));
     j += 1;
   }
   assert!(rng.calls == 3 * (n as u64 - 1));
 }
+#[kani::proof]
+#[kani::unwind(6)]
+fn k_random_polynomial() {
+  check_random_polynomial(0);
+  check_random_polynomial(1);
+  check_random_polynomial(2);
+  check_random_polynomial(3);
+  check_random_polynomial(4);
+}
 
 /// Sharks::dealer_rng: one polynomial per complete 24-byte element, refused iff some element is out
 /// of range, constant terms = decoded elements, every other coefficient a separate draw in order;
-/// secrets of length <= 50 (two elements + tail), thresholds 0..3
-#[kani::proof]
-#[kani::unwind(6)]
-fn k_dealer_rng() {
-  let buf: [u8; 50] = kani::any();
-  let n: usize = kani::any();
-  kani::assume(n <= 50);
-  let t: u32 = kani::any();
-  kani::assume(t <= 3);
-  let secret = &buf[..n];
+/// every secret of the given concrete length, concrete threshold
+fn check_dealer<const N: usize>(t: u32) {
+  let buf: [u8; N] = kani::any();
+  let secret = &buf[..];
   let mut rng = SeqRng { calls: 0 };
   let sharks = crate::Sharks(t);
   let r = sharks.dealer_rng(secret, &mut rng);
-  let cnt = n / 24;
+  let cnt = N / 24;
   let ok0 = cnt < 1 || lt(&limbs_of(&secret[0..24]), &P);
   let ok1 = cnt < 2 || lt(&limbs_of(&secret[24..48]), &P);
   assert!(r.is_ok() == (ok0 && ok1));
   if let Ok(ev) = r {
-    assert!(ev.x.0 == [0u64; 3]);
+    assert!(eq3(&ev.x.0, &[0u64; 3]));
     assert!(ev.polys.len() == cnt);
     let m = if t >= 1 { t as usize } else { 1 };
     let mut i = 0;
     while i < cnt {
       assert!(ev.polys[i].len() == m);
-      let mut cb = [0u8; 24];
-      cb.copy_from_slice(&secret[24 * i..24 * i + 24]);
-      let c: Option<Fp> = Fp::from_repr(FpRepr(cb)).into();
-      assert!(ev.polys[i][m - 1].0 == c.unwrap().0);
+      assert!(eq3(&ev.polys[i][m - 1].0, &limbs_of(&secret[24 * i..24 * i + 24])));
       let mut j = 0;
       while j + 1 < m {
-        assert!(ev.polys[i][j].0 == [101 + (i * (m - 1) + j) as u64, 0, 0]);
+        assert!(eq3(&ev.polys[i][j].0, &[101 + (i * (m - 1) + j) as u64, 0, 0]));
         j += 1;
       }
       i += 1;
     }
   }
+}
+#[kani::proof]
+#[kani::unwind(6)]
+#[kani::stub(<Fp as crate::ff::PrimeField>::from_repr, stub_from_repr)]
+fn k_dealer_rng() {
+  check_dealer::<23>(2);
+  check_dealer::<24>(0);
+  check_dealer::<25>(3);
+}
+#[kani::proof]
+#[kani::unwind(6)]
+#[kani::stub(<Fp as crate::ff::PrimeField>::from_repr, stub_from_repr)]
+fn k_dealer_rng_2() {
+  check_dealer::<48>(2);
 }
